@@ -226,7 +226,34 @@ def run(F, R, tier):
             else:
                 r1.require(len(ds) <= 1 and (not ds or one), (bfn, "base64url-only"), "decode_b64 tries another decoding after the Base64Url one failed (%s): the same bytes get several accepted spellings" % [str(e.args[1]) for e in ds])
         r1.site("decode_b64: one Base64Url decoding of the input, returned or failed: %d path(s)" % len(tabb.paths))
-    r1.floor(12)
+    # compact serialization: exactly three '.'-separated segments — protected, payload, signature — and each goes where it belongs; a
+    # fourth segment (or anything after the signature) is not ignored.  Decided over the positional split model.
+    cfn = DEC + "::Decoder::decode_compact_serialization"
+    if r1.anchor(F.hir(cfn), cfn):
+        tabc = SR.Table(F, cfn, opaque=r"Decoder::(expand_payload|decode_signature)$|parse_utf8$", rule=r1, split_streams=True)
+        JB = SR.param(sym.param_name(F, cfn, 1, "jws_bytes"))
+        n_okc = 0
+        for q in tabc.ok():
+            n_okc += 1
+            segs = {a[3]: c for (a, c, _, _) in q.decisions if a[0] == "hasseg" and a[1] == JB}
+            r1.require(segs.get(1) is True and segs.get(2) is True and segs.get(3) is False, (cfn, "three-segments"),
+                       "decode_compact_serialization accepts without having established exactly three segments (decided: %s): bytes after the signature segment are neither signed nor rejected" % sorted(segs.items()))
+            ds = [e for e in q.calls(r"Decoder::decode_signature$") if q.succeeded(e) is not False]      # (its result is usually returned as it is)
+            ep = [e for e in q.calls(r"Decoder::expand_payload$") if q.succeeded(e) is True]
+            good = len(ds) == 1 and len(ep) == 1 and SR.derives(q.ret, ds[0].result.t)
+            if good:
+                sepk = next((a[2] for (a, c, _, _) in q.decisions if a[0] == "hasseg" and a[1] == JB), None)
+                seg = lambda k_: ("seg", JB, sepk, k_)  # noqa: E731
+                sig = sym.term(ds[0].args[2])
+                fl = dict((kv[0], kv[1]) for kv in sig[2:] if isinstance(kv, tuple) and len(kv) == 2) if isinstance(sig, tuple) and sig[:1] == ("struct",) else {}
+                has_ = lambda t_, x_: isinstance(t_, tuple) and any(y_ == x_ for y_ in sym.subterms(t_))  # noqa: E731
+                only_ = lambda t_, k_: has_(t_, seg(k_)) and not any(has_(t_, seg(j_)) for j_ in range(4) if j_ != k_)  # noqa: E731
+                good = (only_(fl.get("protected"), 0) and only_(fl.get("signature"), 2) and only_(sym.term(ep[0].args[1]), 1)
+                        and has_(sym.term(ds[0].args[1]), ep[0].result.t) and not any(has_(sym.term(ds[0].args[1]), seg(j_)) for j_ in (0, 2, 3)))
+            r1.require(good, (cfn, "segment-roles"), "decode_compact_serialization does not hand segment 0 on as the protected header, segment 1 as the payload and segment 2 as the signature")
+        r1.site("decode_compact_serialization: %d accepting path(s), each with exactly three segments in their roles" % n_okc)
+        r1.require(n_okc >= 1 or not tabc.paths, (cfn, "three-segments", "rows"), "decode_compact_serialization has no accepting path")
+    r1.floor(13)
 
     # ------------------------------------------------------------------ R2 algorithm / b64 come from the protected header only
     r2 = R.rule("C01-R2", "T3", "every alg()/b64() read on the verification path has a receiver derived from the protected header")
@@ -441,6 +468,44 @@ def run(F, R, tier):
         r6.require(set(want) <= set(seen) or not tabd.paths, (fn, "arms-missing"), "dispatch table lacks %s" % sorted(set(want) - set(seen)))
         r6.require("<other>" in seen or not tabd.paths, (fn, "scrutinee"), "dispatch is not on input.alg (no rejecting row for other algorithms)")
     r6.floor(6)
+
+    # ------------------------------------------------------------------ R8 one algorithm, one name
+    # The key pin is checked by name: `public_key.check_alg(alg.name())`.  `name()` must therefore give every algorithm its own registered
+    # name — the serde name of the variant, which is also what FromStr reads back — or a token of one algorithm passes the pin of another.
+    r8 = R.rule("C01-R8", "T7", "JwsAlgorithm: name(v) = serde name of v and from_str(name(v)) = v for every variant (the name the key pin is compared with identifies the algorithm)")
+    ALG = "identity_jose::jws::algorithm::JwsAlgorithm"
+    aa, ai = F.adt(ALG), F.ast_item(ALG)
+    if r8.anchor(aa, ALG) and r8.anchor(ai, ALG + " (ast)"):
+        nfn, pfn = ALG + "::name", (F.find(r"^<%s as core::str::traits::FromStr>::from_str$" % re.escape(ALG)) or [None])[0]
+        serde_name = {}
+        for v in ai.get("variants", []):
+            nm = v["name"]
+            for at in v.get("attrs", []):
+                mm = re.search(r'rename\s*=\s*"([^"]+)"', at)
+                if mm:
+                    nm = mm.group(1)
+            serde_name[v["name"]] = nm
+        unit = [v["name"] for v in aa["variants"] if not v.get("fields")]
+        if r8.require(F.hir(nfn) is not None and pfn is not None, (ALG, "ANCHOR"), "JwsAlgorithm::name / FromStr not found"):
+            seen = {}
+            for vn in unit:
+                want = serde_name.get(vn, vn)
+                try:
+                    ps = [q for q in sym.Evaluator(F, inline_depth=3).explore(nfn, args=[sym.V(vn)]) if q.complete]
+                except (sym.Abort, sym.TooManyPaths):
+                    ps = []
+                got = {q.ret if isinstance(q.ret, str) and not isinstance(q.ret, sym.Sym) else sym.fmt(sym.term(q.ret)) for q in ps}
+                r8.require(got == {want}, (ALG, "name", vn), "JwsAlgorithm::%s.name() is %s, not %r: the key pin `alg` is compared with this name, so a %s token passes (only) the pin of %s" % (vn, sorted(got), want, vn, sorted(got)))
+                for g_ in got:
+                    r8.require(seen.setdefault(g_, vn) == vn, (ALG, "name", "injective", vn), "JwsAlgorithm::%s and ::%s share the name %r" % (seen.get(g_), vn, g_))
+                try:
+                    ps = [q for q in sym.Evaluator(F, inline_depth=3).explore(pfn, args=[want]) if q.complete]
+                except (sym.Abort, sym.TooManyPaths):
+                    ps = []
+                back = {sym.fmt(sym.term(q.ret)) for q in ps}
+                r8.require(back == {"Ok(%s)" % vn}, (ALG, "from_str", vn), "JwsAlgorithm::from_str(%r) is %s, not Ok(%s)" % (want, sorted(back), vn))
+            r8.site("JwsAlgorithm: %d unit variants, name() = serde name, from_str(name) = variant" % len(unit))
+    r8.floor(1)
 
     # ------------------------------------------------------------------ R7 the verification result is never discarded
     r7 = R.rule("C01-R7", "T9", "every caller of JwsValidationItem::verify propagates or branches on its Result (never drops it or treats Err as success)")
